@@ -161,6 +161,15 @@ def run_shard(sh):
             except Exception as e:
                 sh.violation('sanitize_non_json_raises_' + type(e).__name__, {'value': repr(v)[:80]},
                              {'kind': 'c18', 'value': repr(v)[:100]})
+        # history independence of sanitize for non-string keys: keys that are == (some even with the same
+        # type and hash: 0.0 / -0.0) but spell differently in JSON, sanitised one after the other in every order
+        KEYATOMS = [0.0, -0.0, 0, False, True, 1, 1.0, None, '0.0', '-0.0', 2 ** 53, float(2 ** 53), -1, -1.0]
+        for k1 in KEYATOMS:
+            for k2 in KEYATOMS:
+                check_sanitize(sh, JsonUtil, {k1: 1}, 'key-sequence')
+                check_sanitize(sh, JsonUtil, {k2: [k1]}, 'key-sequence')
+                check_sanitize(sh, JsonUtil, [{k2: 1}, {k1: 2}], 'key-sequence')
+                sh.count('key_sequence_checked', 3)
     else:
         sh.count('sanitize_checked', 0)
         sh.count('typeerror_cases', 0)
